@@ -45,6 +45,8 @@ class _Link:
         self.bad = []
         self.after_failure = None
         self.closed = False
+        self.deferred = False
+        self._queued = None
 
     def _reply(self, data, late=False):
         from cflib.crtp.crtpstack import CRTPPacket
@@ -52,6 +54,21 @@ class _Link:
         (self.later if late else self.rx).append(pk)
 
     def send_packet(self, pk):
+        if self.deferred:
+            # like the radio driver: the packet object is queued and turned into a frame later (here: at the next call on the link), so
+            # what goes on the air is what the object holds THEN
+            prev, self._queued = self._queued, pk
+            if prev is not None:
+                self._transmit(prev)
+            return
+        self._transmit(pk)
+
+    def _flush(self):
+        if self._queued is not None:
+            prev, self._queued = self._queued, None
+            self._transmit(prev)
+
+    def _transmit(self, pk):
         data = bytes(pk.data)
         self.sent.append((pk.header, data))
         if self.later:
@@ -117,11 +134,13 @@ class _Link:
                 self._reply(bytes([target, 0x18, 1, 0]), late=True)
 
     def receive_packet(self, wait=0):
+        self._flush()
         if self.rx:
             return self.rx.pop(0)
         return None
 
     def close(self):
+        self._flush()
         self.closed = True
 
 
@@ -135,7 +154,7 @@ def run_flash(case):
     fill = case.get('fill')
     if fill:      # runs of one value (zero padding, erased-flash 0xFF) as real firmware images have them
         val, starts, runlen = fill[:3]
-        for a in starts:
+        for a in (starts if n else []):
             a = a % n
             image[a:min(n, a + runlen)] = bytes([val]) * (min(n, a + runlen) - a)
         if fill[3]:
@@ -157,6 +176,8 @@ def run_flash(case):
     for a in set(faults):
         out.feat('fault-' + a)
     link = _Link(geo, plan)
+    link.deferred = bool(case.get('deferred'))
+    out.feat('link-builds-frames-later' if link.deferred else 'link-copies-at-once')
     bl = Bootloader(None)
     if case.get('progress'):
         # a client that shows progress (cfclient, flash_full): errors are then reported through the callback as well
@@ -181,7 +202,15 @@ def run_flash(case):
             bl._internal_flash(art, page_override=case['override'])
     except Exception as e:  # noqa
         raised = e
+    link._flush()
     msgs = link.sent[pre:]
+    if n == 0:
+        # an empty image occupies no page: nothing may be written; whether it is refused or accepted is not stated
+        out.feat('empty-image-refused' if raised is not None else 'empty-image-accepted')
+        out.nontrivial = True
+        if link.flash_cmds:
+            out.fail('flash:page-range:empty-image', 'geometry %r target %s override %r: empty image, flash-write commands %r' % (geo, case['target'], case['override'], link.flash_cmds))
+        return out
     desc = 'geometry %r target %s override %r length %d plan %r' % (geo, case['target'], case['override'], n, case['plan'][:12])
     for b in link.bad:
         out.fail('flash:message:' + b.split(' ')[0], '%s: %s' % (desc, b))
@@ -288,12 +317,14 @@ def flash_case(draw):
     buf = ps * bp
     base = draw(st.sampled_from([1, 25, 50, ps, 2 * ps, buf, 2 * buf, 3 * buf, buf + ps, 2 * buf + ps, draw(st.integers(1, 3 * buf))]))
     n = max(1, base + draw(st.sampled_from([0, 0, 0, -1, 1, -24, 24, 25, -25])))
+    if draw(st.integers(0, 24)) == 0:
+        n = 0
     need = (n + ps - 1) // ps
     slack = draw(st.sampled_from([0, 0, 1, 5, -1, -2]))
     fpg = max(start + 1, start + need + slack)
     plan = draw(st.one_of(st.just([]), st.lists(st.sampled_from(_ACTIONS + ['ok'] * 4), max_size=14)))
     return {'geo': {'page_size': ps, 'buffer_pages': bp, 'flash_pages': fpg, 'start_page': sp}, 'target': draw(st.sampled_from(['stm32', 'nrf51'])),
-            'override': override, 'length': n, 'plan': plan, 'progress': draw(st.booleans()),
+            'override': override, 'length': n, 'plan': plan, 'progress': draw(st.booleans()), 'deferred': draw(st.sampled_from([False, False, True])),
             'fill': draw(st.one_of(st.none(), st.tuples(st.sampled_from([0, 0, 0xFF]), st.lists(st.integers(0, 1 << 16), max_size=4),
                                                          st.sampled_from([1, 24, 25, 26, 60, 200]), st.sampled_from([0, 1, 24, 25, 30, 100, 2000]))))}
 
@@ -557,8 +588,20 @@ def long_fault_cases(tier):
                     yield {'geo': geo, 'target': 'stm32', 'override': None, 'length': n, 'plan': lead + [act] * reps, 'progress': reps % 2 == 0}
 
 
+def boundary_cases(tier):
+    for (ps, bp, sp) in ((16, 2, 3), (1024, 10, 16), (25, 1, 0)):
+        geo = {'page_size': ps, 'buffer_pages': bp, 'flash_pages': 128, 'start_page': sp}
+        for target in ('stm32', 'nrf51'):
+            for override in (None, 20):
+                for progress in (False, True):
+                    yield {'geo': geo, 'target': target, 'override': override, 'length': 0, 'plan': [], 'progress': progress}
+            for n in (1, 25, 26, ps, ps + 1, ps * bp, ps * bp + 26, 2 * ps * bp + ps):
+                yield {'geo': geo, 'target': target, 'override': None, 'length': n, 'plan': [], 'progress': False, 'deferred': True}
+
+
 def subchecks(tier):
     return [
+        Sub('boundaries', run_flash, cases=boundary_cases, distinct_by_construction=True),
         Sub('faults-repeated', run_flash, cases=long_fault_cases, distinct_by_construction=True),
         Sub('flash', run_flash, strategy=flash_case(), examples={'quick': 1200, 'thorough': 60000}),
         Sub('faults-exhaustive', run_flash, cases=fault_cases, distinct_by_construction=True),
